@@ -39,6 +39,18 @@ from pypika_tortoise import functions as _F  # noqa: E402
 from pypika_tortoise.enums import SqlTypes as _SqlTypes  # noqa: E402
 
 
+class _Col(enum.Enum):
+    red = "red'x"
+
+
+class _StrCol(str, enum.Enum):
+    blue = "blue"
+
+
+class _IntCol(int, enum.Enum):
+    two = 2
+
+
 class _Enc(enum.Enum):
     utf8 = "utf8"
 
@@ -378,6 +390,11 @@ def sens_seeds():
         "date": lambda: T.ValueWrapper(datetime.date(2020, 1, 2)),
         "case_const": lambda: T.Case().when(col() == BS, T.Interval(hours=1)).else_(True),
         "like": lambda: col().like(BS),
+        # enum members (plain, str-mixin, int-mixin) as constants: inlined by value, never bound as parameters
+        "enum": lambda: T.Tuple(_Col.red, _StrCol.blue, _IntCol.two),
+        "enum_crit": lambda: (col() == _Col.red) & col().isin([_StrCol.blue, _IntCol.two]),
+        # a term as the bound of a window frame
+        "frame_interval": lambda: AN.Sum(col()).over(col()).orderby(col()).range(AN.Preceding(T.Interval(days=1)), AN.Following(T.Interval(hours=2))),
     }
     return S
 
@@ -394,7 +411,13 @@ def setop_seeds(dialect):
         return (QQ.from_(t).select(t.a.as_("k")).union_all(QQ.from_(u).select(u.x)).intersect(QQ.from_(v).select(v.id))
                 .orderby(t.a.as_("k"), order=Order.asc).limit(3).offset(1))
 
-    return {"two": two, "three_ord": three_ord}
+    def ord_aliased():
+        # ORDER BY / operands over an aliased table: a qualifier shows in the rendering, so a write through shared ORDER BY
+        # entries is visible
+        t, u = Table("t", alias="ta"), Table("u")
+        return QQ.from_(t).select(t.a, t.b).union(QQ.from_(u).select(u.x, u.y)).orderby(t.a, order=Order.desc).orderby(t.b)
+
+    return {"two": two, "three_ord": three_ord, "ord_aliased": ord_aliased}
 
 
 def ddl_seeds():
